@@ -298,10 +298,12 @@ def run(ctx):
         for k, v in (res.get("decomp") or {}).items():
             decomp[k] = max(decomp.get(k, 0), v)
         invalid = [p for p in res["problems"] if p[0] == "validate"]
-        ctx.correspondence("valid_file (spec validator) accepts every file the writer produced", case,
-                           "Valid", "Valid" if not invalid else invalid[0][1])
+        known = False
         if res["problems"]:
-            ctx.fail(classify(spec, o, res), case, "; ".join("%s: %s" % p for p in res["problems"])[:1500])
+            known = not ctx.fail(classify(spec, o, res), case, "; ".join("%s: %s" % p for p in res["problems"])[:1500])
+        if not known:      # a known finding is accounted for by its own entry, not by the correspondence
+            ctx.correspondence("valid_file (spec validator) accepts every file the writer produced", case,
+                               "Valid", "Valid" if not invalid else invalid[0][1])
     ctx.extra["files_validated"] = files
     ctx.extra["files_needing_leniency_short_final_bitpacked_group"] = lenient
     ctx.extra["decompression"] = decomp
